@@ -30,6 +30,7 @@ pub open spec fn is_query(t: UriElement) -> bool { t is Query }
 pub open spec fn d6_class(s: Seq<u8>, t: UriElement) -> bool { !is_query(t) && !plus_free(s) }
 
 //@ fn canonical.rs normalize_uri_element
+//@ hideutf8
 //@ props C08 C09 C10 C02
 //@ ret res
 //@ spec
@@ -137,6 +138,7 @@ pub open spec fn d6_class(s: Seq<u8>, t: UriElement) -> bool { !is_query(t) && !
 
 
 //@ fn canonical.rs unescape_uri_encoding
+//@ hideutf8
 //@ props C08 C02 C19
 //@ ret r
 //@ spec
